@@ -6,7 +6,7 @@ import re
 from dataclasses import dataclass, field
 
 BODY_KINDS = {"Block", "Watch", "Alarm", "Macro"}
-UOD = {"Set1", "Set3", "Ramp", "LongA", "LongB", "LongC", "Valve", "Boom", "BoomInit", "BadArgs", "Spin", "Churn", "OpenValve", "Full"}
+UOD = {"Set1", "Set3", "Ramp", "LongA", "LongB", "LongC", "Valve", "Boom", "BoomInit", "BadArgs", "Spin", "Churn", "OpenValve", "Full", "SlowOpen", "SlowFull"}
 LINE_RE = re.compile(r"^(?P<indent> *)((?P<thr>\d+(\.\d+)?) )?(?P<name>[A-Za-z_0-9][^:#]*?)(: (?P<arg>[^#]*?))?\s*(#.*)?$")
 
 
